@@ -309,16 +309,40 @@ fn value_of(v: &Value, w: &World) -> Variable {
     }
 }
 
+/// A lock poisoned by a panic of the code under test while it held the guard is data (counted
+/// and reported), not a reason for the harness to fall over.
+static POISONED: AtomicU64 = AtomicU64::new(0);
+
+fn host_write(cell: &Arc<Mut>, v: Variable) {
+    let mut g = cell.variable.write().unwrap_or_else(|e| {
+        POISONED.fetch_add(1, Ordering::Relaxed);
+        cell.variable.clear_poison();
+        e.into_inner()
+    });
+    *g = v;
+}
+
+fn host_read(cell: &Arc<Mut>) -> Variable {
+    cell.variable
+        .read()
+        .unwrap_or_else(|e| {
+            POISONED.fetch_add(1, Ordering::Relaxed);
+            cell.variable.clear_poison();
+            e.into_inner()
+        })
+        .clone()
+}
+
 fn reset_cells(w: &World, init: &Map<String, Value>) {
     for (name, v) in init {
-        *w.cells[name].variable.write().unwrap() = value_of(v, w);
+        host_write(&w.cells[name], value_of(v, w));
     }
 }
 
 fn final_vals(w: &World) -> Value {
     let mut m = Map::new();
     for (name, c) in &w.cells {
-        let v = c.variable.read().unwrap().clone();
+        let v = host_read(c);
         m.insert(name.clone(), val_json(&v, &w.names));
     }
     Value::Object(m)
@@ -434,9 +458,12 @@ fn replay(args: &[String]) -> Value {
         }
     }
     set_table(&mut rng, 0);
-    json!({"cases": cases.len(), "runs": runs, "panics": panics, "cases_with_several_outcomes_observed": multi,
+    let mismatch_count = mismatches.len();
+    mismatches.truncate(40);
+    json!({"cases": cases.len(), "runs": runs, "panics": panics, "mismatch_count": mismatch_count, "cases_with_several_outcomes_observed": multi,
         "outcomes_observed": outcomes_seen, "outcomes_allowed": outcomes_allowed,
         "deadlock": deadlock, "mismatches": mismatches, "samples": samples,
+        "poisoned_locks": POISONED.load(Ordering::Relaxed),
         "perturb_hits": HOOK_HITS.load(Ordering::Relaxed)})
 }
 
@@ -554,8 +581,10 @@ fn forced(args: &[String]) -> Value {
         }
     }
     GATES_ON.store(false, Ordering::Relaxed);
-    json!({"cases": cases.len(), "orders": orders_total, "runs": runs, "deadlock": deadlock,
-        "mismatches": mismatches, "samples": samples})
+    let mismatch_count = mismatches.len();
+    mismatches.truncate(40);
+    json!({"cases": cases.len(), "mismatch_count": mismatch_count, "orders": orders_total, "runs": runs, "deadlock": deadlock,
+        "poisoned_locks": POISONED.load(Ordering::Relaxed), "mismatches": mismatches, "samples": samples})
 }
 
 // ------------------------------------------------------------------------------------------
@@ -749,7 +778,7 @@ fn run_history(
     }
     let w = make_world(&types, true);
     for (i, n) in CELL_NAMES.iter().enumerate() {
-        *w.cells[*n].variable.write().unwrap() = Variable::Int(init[i]);
+        host_write(&w.cells[*n], Variable::Int(init[i]));
     }
     let init_json = final_vals(&w);
     // route 0: one parsed Code per distinct operation, shared by all threads
@@ -946,6 +975,7 @@ fn record(args: &[String]) -> Value {
     lin.flush().unwrap();
     set_table(&mut rng, 0);
     json!({"histories": h, "events": n_events, "calls": n_calls, "writes": n_writes, "panics": n_panics,
+        "poisoned_locks": POISONED.load(Ordering::Relaxed),
         "contended_calls": contended, "contended_histories": contended_histories, "kinds": kinds, "deadlock": deadlock, "samples": samples,
         "perturb_hits": HOOK_HITS.load(Ordering::Relaxed)})
 }
